@@ -48,6 +48,9 @@ struct px {
 	int		alive;
 };
 static struct px *cur[2];
+static long last_total;
+static uint64_t case_sig0;
+static int last_in_sock, last_out_sock, last_relay;
 
 static struct {
 	uint64_t cases, pumps, calls, bytes, full_states, eof_with_data, errors_injected, destroyed_midway, band_checks, eagain_out,
@@ -325,6 +328,7 @@ static void run_pump(int slot)
 	int big_chunks = rng_pct(&R, 50);
 
 	cur[slot] = p;
+	last_total = p->total; last_in_sock = p->sock_in; last_out_sock = p->sock_out; last_relay = p->relay;
 	while (steps++ < maxsteps && p->last_ret != 0 && !p->io_error && p->last_ret != -1) {
 		unsigned r = rng_n(&R, 100);
 		if ((int)steps == destroy_at)
@@ -396,13 +400,22 @@ static void run_case(long id, uint64_t seed)
 	mon_viol_case = 0;
 	mon_watchdog(60);
 	rng_seed(&R, seed, (uint64_t)id);
+	case_sig0 = S.eagain_out + S.full_states + S.eof_with_data + S.errors_injected + S.destroyed_midway;
 	iv_init();
 	n = 1 + rng_n(&R, 4);
 	for (i = 0; i < n; i++)
 		run_pump(0);		/* sequential pumps share the per-thread buffer cache */
 	iv_deinit();
 	S.cases++;
-	mon_printf("CASE id=%ld trace=%016llx nt=%d pumps=%d viol=%d\n", id, (unsigned long long)mix64(seed * 31 + id), 1, n, mon_viol_case);
+	{
+		/* non-trivial: the case saw back-pressure (EAGAIN on the output), a full buffer, end of file with data pending, a write error or a mid-way destroy */
+		uint64_t now_sig = S.eagain_out + S.full_states + S.eof_with_data + S.errors_injected + S.destroyed_midway;
+		mon_printf("CASE id=%ld trace=%016llx nt=%d pumps=%d viol=%d\n", id, (unsigned long long)mix64(seed * 31 + id), now_sig != case_sig0, n, mon_viol_case);
+	}
+	if (id % 97 == 0)
+		mon_printf("SAMPLE case=%ld mode=%s pumps=%d last pump: length=%ld input=%s output=%s relay_eof=%d (cumulative: pump calls=%llu, bytes verified=%llu, returns 1/0/-1 = %llu/%llu/%llu)\n",
+			   id, g_mode, n, last_total, last_in_sock ? "socket" : "pipe", last_out_sock ? "socket" : "pipe", last_relay,
+			   (unsigned long long)S.calls, (unsigned long long)S.bytes, (unsigned long long)S.ret1, (unsigned long long)S.ret0, (unsigned long long)S.retm1);
 }
 
 int main(int argc, char **argv)
